@@ -454,7 +454,7 @@ pub fn run(args: &Args) {
             ("szx", szx(&d48, &SzxOpts { compressed: true, ay: Some((1, [3; 16])), mouse: Some(2), ..Default::default() }), false),
             ("szx", szx(&d128, &SzxOpts::default()), true),
             ("scr", r.bytes(6912), false),
-            ("tap", tap_bytes(&[good_block(0, &r.bytes(17)), good_block(0xFF, &r.bytes(300))]), false),
+            ("tap", tap_bytes(&[good_block(0, &r.bytes(17)), good_block(0xFF, &r.bytes(300)), good_block(0xFF, &r.bytes(50))]), false),
         ];
         if args.num("faults", 1) != 0 {
             for (kind, bytes, m128) in files.iter() {
